@@ -5,7 +5,9 @@
 EXTENDS Hook, TLC, Json
 CONSTANTS MaxArgs, Variant, GenOn
 VARIABLES hook, link
-Args == {"%url", "%mimetype", "%supertype", "%subtype", "-x", "--u=%url", "%URL", "", "%urls", "x%mimetype"}
+Args == {"%url", "%mimetype", "%supertype", "%subtype", "-x", "--u=%url", "%URL", "", "%urls", "x%mimetype",
+         \* white space belongs to an argument: nothing is trimmed, and a padded placeholder is no placeholder
+         " %url", "%url ", "%s\n", "--prefix= ", "\t%mimetype"}
 Links == {"https://h/x", "%mimetype", "%url"}
 Mt == [essence |-> "video/mp4", supertype |-> "video", subtype |-> "mp4"]
 Init == /\ hook \in UNION {{<<p>> \o s : s \in [1..n -> Args], p \in {"prog", "%url"}} : n \in 0..MaxArgs} /\ link \in Links
